@@ -25,11 +25,12 @@ from verif import scen  # noqa: F401  installs the in-process fake ray before re
 from verif.oracles import kf_linear as kf
 
 from resonaate.common.behavioral_config import BehavioralConfig
+from resonaate.data.observation import Observation
 from resonaate.estimation.kalman.unscented_kalman_filter import UnscentedKalmanFilter
 from resonaate.estimation.results import UKFForecastResult, UKFPredictResult, UKFUpdateResult
 from resonaate.estimation.sequential_filter import EstimateSource, FilterFlag
 from resonaate.physics import noise as rnoise
-from resonaate.physics.measurements import IsAngle
+from resonaate.physics.measurements import IsAngle, Measurement, MeasurementType
 from resonaate.physics.time.stardate import ScenarioTime
 
 PROPERTY = "C06"
@@ -108,6 +109,9 @@ def items(tier, seed):
         for fk in range(4):
             for pk, qk, rk in _kinds(tier):
                 out.append(("lin", n, fk, pk, qk, rk, seed, tier))
+    for n in range(1, 9):
+        out.append(("dtype", n, seed, tier))
+        out.append(("intinputs", n, seed, tier))
     out.append(("weights", seed, tier))
     out.append(("sigma", seed, tier))
     out.append(("noobs_nonlinear", seed, tier))
@@ -201,6 +205,106 @@ class LinObs:
         self.julian_date = jd
 
 
+# ------------------------------------------------------------------------------------------------ number types
+# How the measured values of one observation reach update(): the real ``Observation.measurement_states`` is
+# ``array([value, ...])`` over whatever objects were stored on the observation (floats from the shipped sensors; ints,
+# numpy scalars, 0-d arrays from hand-built / imported data), so the stacked true_y takes whatever dtype numpy's
+# promotion gives.  The Kalman update is a statement about the numbers, not about their representation: every kind
+# below is compared with the float64 reference on the same numbers.  ``whole`` = nearest whole numbers of 4 y.
+INT_ONLY_KINDS = [  # every value of the stack is integer-typed: true_y is an integer array
+    "py_int", "py_int_list", "np_int64", "np_int32", "np_int16", "np_int64_scalars", "zero_d_int", "int64_then_int32",
+    "observation_int",
+]
+FLOAT_KINDS = [  # at least one float-typed value in the stack (or all): true_y is a floating array
+    "np_float64", "py_float", "py_float_list", "np_float32", "np_float64_scalars", "zero_d_float", "whole_float",
+    "whole_float32", "mixed_within", "mixed_within_list", "int_then_float", "float_then_int", "int_then_float32",
+    "int16_then_float32", "observation_float", "observation_whole_float", "observation_mixed",
+]
+VALUE_KINDS = INT_ONLY_KINDS + FLOAT_KINDS
+
+
+def measured_values(kind, y, j):
+    """The measured values of the observation at stack position j, typed and held as ``kind`` says."""
+    w = [int(round(4.0 * float(v))) for v in y]  # Python ints in [-12, 12]
+    f = [4.0 * float(v) for v in y]  # Python floats, not whole
+    even = j % 2 == 0
+    mixed = [w[i] if (i + j) % 2 == 0 else f[i] for i in range(len(w))]
+    table = {
+        "py_int": lambda: np.array(w),
+        "py_int_list": lambda: list(w),
+        "np_int64": lambda: np.array(w, dtype=np.int64),
+        "np_int32": lambda: np.array(w, dtype=np.int32),
+        "np_int16": lambda: np.array(w, dtype=np.int16),
+        "np_int64_scalars": lambda: np.array([np.int64(v) for v in w]),
+        "zero_d_int": lambda: np.array([np.array(v) for v in w]),
+        "int64_then_int32": lambda: np.array(w, dtype=np.int64 if even else np.int32),
+        "np_float64": lambda: np.array(f, dtype=np.float64),
+        "py_float": lambda: np.array(f),
+        "py_float_list": lambda: list(f),
+        "np_float32": lambda: np.array(f, dtype=np.float32),
+        "np_float64_scalars": lambda: np.array([np.float64(v) for v in f]),
+        "zero_d_float": lambda: np.array([np.array(v) for v in f]),
+        "whole_float": lambda: np.array([float(v) for v in w]),
+        "whole_float32": lambda: np.array(w, dtype=np.float32),
+        "mixed_within": lambda: np.array(mixed),
+        "mixed_within_list": lambda: list(mixed),
+        "int_then_float": lambda: np.array(w) if even else np.array(f),
+        "float_then_int": lambda: np.array(f) if even else np.array(w),
+        "int_then_float32": lambda: np.array(w) if even else np.array(f, dtype=np.float32),
+        "int16_then_float32": lambda: np.array(w, dtype=np.int16) if even else np.array(f, dtype=np.float32),
+        # real Observation objects: plain Python values, stored as given
+        "observation_int": lambda: list(w),
+        "observation_float": lambda: list(f),
+        "observation_whole_float": lambda: [float(v) for v in w],
+        "observation_mixed": lambda: list(mixed),
+    }
+    return table[kind]()
+
+
+OBS_LABELS = ["azimuth_rad", "elevation_rad", "range_km", "range_rate_km_p_sec"]  # value columns of an Observation
+
+
+class LinRow(MeasurementType):
+    """One linear measurement component h . x + g . s stored in one of the value columns of the Observation table."""
+
+    def __init__(self, label, h_row, g_row):
+        self.LABEL = label
+        self.h_row = h_row
+        self.g_row = g_row
+
+    def calculate(self, sen_eci_state, tgt_eci_state, utc_date):
+        return float(self.h_row @ tgt_eci_state + self.g_row @ sen_eci_state)
+
+    @property
+    def is_angular(self):
+        return IsAngle.NOT_ANGLE
+
+
+class RealLinMeas(Measurement):
+    """The library's Measurement over LinRow components; carries H and G for the reference, counts noisy calls."""
+
+    def __init__(self, h, g, r, labels):
+        super().__init__([LinRow(lab, h[i], g[i]) for i, lab in enumerate(labels)], r)
+        self.h = h
+        self.g = g
+        self.noisy_calls = 0
+
+    def calculateMeasurement(self, sen_eci_state, tgt_eci_state, utc_date, noisy=False):  # noqa: N802
+        if noisy:
+            self.noisy_calls += 1
+        return super().calculateMeasurement(sen_eci_state, tgt_eci_state, utc_date, noisy=noisy)
+
+
+def real_observation(h, g, r, values, s, jd, j):
+    """A real ``Observation`` (<= 4 components) whose value columns hold ``values`` exactly as given; the columns are
+    taken in a rotated order so that the label order of the Measurement, not the column order, defines the vector."""
+    d = h.shape[0]
+    labels = [OBS_LABELS[(j + i) % 4] for i in range(d)]
+    meas = RealLinMeas(h, g, np.asarray(r, dtype=float), labels)
+    return Observation(julian_date=jd, target_id=10001, sensor_id=20001 + j, sensor_type="Linear", sensor_eci=s,
+                       measurement=meas, **dict(zip(labels, values)))
+
+
 class Detector:
     """Maneuver-detection stub: records what it was called with, answers a fixed verdict."""
 
@@ -226,6 +330,14 @@ class System:
         sign = np.array([(-1.0) ** i for i in range(n)])
         self.x0 = sign * (1.0 + 0.37 * np.arange(n)) + 0.1 * kf.halton_vector(n, ph)
         self._obs_cache = {}
+        # number-type families (D), (E): how the measured values / R / the filter's own inputs are typed and held
+        # (None = float64 ndarrays, the representation of families (A)-(C))
+        self.value_kind = None
+        self.r_dtype = None
+        self.casts = {}
+
+    def _make_r(self, j, d):
+        return kf.make_cov(self.rk, d, self.seed % 1000 + 2 + j, scale=0.2 * (1.0 + 0.5 * j))
 
     def obs(self, j, d):
         """Observation at stack position j with dimension d (its own H, G, R, y, sensor vector, epoch)."""
@@ -234,12 +346,17 @@ class System:
             ph = self.seed % 1000
             h = kf.halton_matrix(d, self.n, 17 + 13 * j + 5 * d + ph)
             g = 0.3 * kf.halton_matrix(d, 6, 29 + 7 * j + ph)
-            r = kf.make_cov(self.rk, d, ph + 2 + j, scale=0.2 * (1.0 + 0.5 * j))
+            r = self._make_r(j, d)
             y = 3.0 * kf.halton_vector(d, 3 + 11 * j + ph, base=5)
             s = 0.5 * kf.halton_vector(6, 41 + 3 * j + ph, base=7)
             self._obs_cache[key] = (h, g, r, y, s)
         h, g, r, y, s = self._obs_cache[key]
-        return LinObs(h, g, r.copy(), y.copy(), s.copy(), JD0 + 0.001 * j)
+        r = r.copy() if self.r_dtype is None else r.astype(self.r_dtype)
+        if self.value_kind is None:
+            return LinObs(h, g, r, y.copy(), s.copy(), JD0 + 0.001 * j)
+        if self.value_kind.startswith("observation_"):
+            return real_observation(h, g, r, measured_values(self.value_kind, y, j), s.copy(), JD0 + 0.001 * j, j)
+        return LinObs(h, g, r, measured_values(self.value_kind, y, j), s.copy(), JD0 + 0.001 * j)
 
     def stack(self, comp):
         return [self.obs(j, d) for j, d in enumerate(comp)]
@@ -248,13 +365,16 @@ class System:
         a, b, k = tuning
         if k == "3-n":
             k = 3.0 - self.n
+        def typed(name, value):
+            return value.copy() if name not in self.casts else value.astype(self.casts[name])
+
         return UnscentedKalmanFilter(
             10001,
             ScenarioTime(0.0),
-            self.x0.copy(),
-            self.p0.copy(),
+            typed("x0", self.x0),
+            typed("p0", self.p0),
             dyn if dyn is not None else LinDyn(self.f),
-            self.q.copy(),
+            typed("q", self.q),
             resample=resample,
             alpha=a,
             beta=b,
@@ -319,6 +439,7 @@ class Ctx:
         self.res, self.sys, self.tuning, self.resample, self.item = res, sysm, tuning, resample, item
         self.tol = Tol(sysm.n, tuning)
         self.mode = "resample" if resample else "noresample"
+        self.family = None  # set by the number-type families: appended to every signature of the context
         self.base = {
             "n": sysm.n,
             "F": kf.F_KINDS[sysm.fk],
@@ -333,7 +454,7 @@ class Ctx:
         c = dict(self.base)
         c.update(extra)
         c["field"] = field
-        sig = f"C06/{sub}/{field}/{self.mode}" + (f"/{tag}" if tag else "")
+        sig = f"C06/{sub}/{field}/{self.mode}" + (f"/{self.family}" if self.family else "") + (f"/{tag}" if tag else "")
         if _DEBUG and ratio is not None:
             key = f"{sub}/{field}/{self.mode}"
             if ratio > _DEBUG_MAX.get(key, (0.0, None))[0]:
@@ -428,7 +549,9 @@ def check_measurement_step(ctx, flt, pre, orc, stack, extra, nontrivial, *, fore
     sub = "forecast" if forecast_only else "update"
     hs = [o.measurement.h for o in stack]
     rs = [o.r_matrix for o in stack]
-    ys = [o.measurement_states for o in stack]
+    # the reference works in float64 on the same numbers, however the measured values / R are typed or held
+    rs = [np.asarray(r, dtype=float) for r in rs]
+    ys = [np.asarray(o.measurement_states, dtype=float).reshape(-1) for o in stack]
     bs = [o.measurement.g @ o.sensor_eci for o in stack]
     xm, pm = pre["pred_x"], pre["pred_p"]
     if ctx.resample:
@@ -862,6 +985,142 @@ def _run_lin(res, item):
             _walk(ctx, direct, mirror, orc, stacks, ["P"], _trie(_histories(bodies, steps)), _depth(tier, n, fk, ti))
 
 
+# ------------------------------------------------------------------------------------------------ (D), (E) number types
+# (D) one prediction, then update(stack) for every value kind of VALUE_KINDS x stack composition below: the numbers are
+# the same whole / non-whole values throughout, only their Python / numpy type and container change.
+# (E) the filter's own inputs (initial estimate, initial covariance, Q, R) handed over as integer arrays holding whole
+# numbers, one at a time and all together, followed through a fixed operation sequence.
+DTYPE_COMPS_Q = [(1,), (3,), (2, 1, 3), (4, 4), (1, 1, 1, 1), (2, 2)]
+DTYPE_COMPS_T = DTYPE_COMPS_Q + [(2,), (4,), (1, 2), (4, 1), (3, 1, 2), (1, 2, 1, 3), (2, 2, 2, 2), (1, 1, 1)]
+INPUT_CASTS = [
+    ("float64", {}, None),
+    ("x0_int64", {"x0": np.int64}, None), ("x0_int32", {"x0": np.int32}, None),
+    ("p0_int64", {"p0": np.int64}, None), ("p0_int32", {"p0": np.int32}, None),
+    ("q_int64", {"q": np.int64}, None), ("q_int32", {"q": np.int32}, None),
+    ("r_int64", {}, np.int64), ("r_int32", {}, np.int32),
+    ("all_int64", {"x0": np.int64, "p0": np.int64, "q": np.int64}, np.int64),
+    ("all_int32", {"x0": np.int32, "p0": np.int32, "q": np.int32}, np.int32),
+]
+INPUT_VALUE_KINDS = ["np_float64", "py_int", "whole_float", "np_int32"]
+INPUT_SEQUENCE = ["P", "Ub", "P", "Ua", "P", "U0", "P", "Fb", "Ua", "P", "Fa", "Ub"]
+
+
+def _dtype_tunings(tier, n, k):
+    """Quick: two of the four tunings per system, rotating with n and the system number; thorough: all six."""
+    if tier != "quick":
+        return list(TUNINGS_T)
+    return [TUNINGS_Q[(n + k) % 4], TUNINGS_Q[(n + k + 2) % 4]]
+
+
+def _dtype_systems(n, seed):
+    """Two systems per state dimension: well-conditioned full matrices, and rotating kinds (diagonal / ill-conditioned)."""
+    return [((n + seed) % 4, 2, 1, 2), ((n + seed + 1) % 4, 3 if n % 2 else 1, (n + 2) % 4, (n + 3) % 4)]
+
+
+def _run_dtype(res, item):
+    _, n, seed, tier = item
+    comps = DTYPE_COMPS_Q if tier == "quick" else DTYPE_COMPS_T
+    for k, (fk, pk, qk, rk) in enumerate(_dtype_systems(n, seed)):
+        sysm = System(n, fk, pk, qk, rk, seed)
+        for tuning in _dtype_tunings(tier, n, k):
+            for resample in (False, True):
+                ctx = Ctx(res, sysm, tuning, resample, item)
+                sysm.value_kind = None
+                flt = sysm.make_filter(tuning, resample)
+                pre = snapshot(flt)
+                flt.predict(ScenarioTime(DT))
+                ctx.family = "number_types"
+                orc = check_predict(ctx, flt, pre, {"sequence": "P", "family": "number_types"}, False)
+                pres = pickle.loads(pickle.dumps(flt.getPredictionResult()))
+                for comp in comps:
+                    for kind in VALUE_KINDS:
+                        sysm.value_kind = kind
+                        ctx.family = kind
+                        extra = {"sequence": "P.U", "stack": list(comp), "values": kind, "family": "number_types"}
+                        nt = kind != "np_float64"
+                        owner = sysm.make_filter(tuning, resample)
+                        owner.applyFilterResult(pres)
+                        mirror = pickle.loads(pickle.dumps(owner))
+                        res.extra["number_type_runs"] = res.extra.get("number_type_runs", 0) + 1
+                        try:
+                            pre_u = snapshot(owner)
+                            stack = sysm.stack(comp)
+                            owner.update(stack)
+                            check_measurement_step(ctx, owner, pre_u, orc, stack, extra, nt, forecast_only=False)
+                            mirror_step(ctx, mirror, owner, "U", sysm.stack(comp), extra, nt)
+                            # the estimate is a floating-point vector whatever the measured values were typed as
+                            kind_ok = np.asarray(owner.est_x).dtype.kind == "f" and np.asarray(owner.innovation).dtype.kind == "f"
+                            ctx.case("update", extra, kind_ok, nontrivial=nt, field="floating_estimate",
+                                     observed=[str(np.asarray(owner.est_x).dtype), str(np.asarray(owner.innovation).dtype)])
+                        except Exception as exc:  # noqa: BLE001
+                            if not _raised_in_library(exc):
+                                raise
+                            ctx.case("update", extra, False, nontrivial=nt, field=f"exception_{type(exc).__name__}",
+                                     observed=str(exc)[:200])
+                sysm.value_kind = None
+
+
+def _whole_cov(kind, n, phase, reverse=False):
+    """Symmetric positive-definite matrix of the named kind whose entries are whole numbers (exact in float64, int32)."""
+    if kind == 0:
+        return np.eye(n)
+    d = np.arange(1, n + 1, dtype=float)
+    if kind == 1:
+        return np.diag(d[::-1] if reverse else d)
+    g = np.round(2.0 * kf.halton_matrix(n, n + 2, 5 + 7 * (phase % 89)))  # entries in {-2, .., 2}
+    m = g @ g.T + 2.0 * np.eye(n)
+    if kind == 2:
+        return m
+    s = 10.0 ** (np.arange(n) % 4)  # standard deviations 1 .. 1000: entries below 2^31
+    if reverse:
+        s = s[::-1]
+    return m * np.outer(s, s)
+
+
+class WholeSystem(System):
+    """The same alphabet of systems with whole-number x0, P0, Q, R (so that integer arrays hold the same numbers)."""
+
+    def __init__(self, n, fk, pk, qk, rk, seed):
+        super().__init__(n, fk, pk, qk, rk, seed)
+        ph = seed % 1000
+        self.p0 = _whole_cov(pk, n, ph)
+        self.q = _whole_cov(qk, n, ph + 1, reverse=True)
+        x = np.round(2.0 * self.x0)
+        self.x0 = np.where(x == 0.0, 1.0, x)
+
+    def _make_r(self, j, d):
+        return _whole_cov(self.rk, d, self.seed % 1000 + 2 + j)
+
+
+def _run_intinputs(res, item):
+    _, n, seed, tier = item
+    stacks = _seq_stacks(n, seed)
+    for k, (fk, pk, qk, rk) in enumerate(_dtype_systems(n, seed)):
+        sysm = WholeSystem(n, fk, pk, qk, rk, seed)
+        for tuning in _dtype_tunings(tier, n, k):
+            for resample in (False, True):
+                for name, casts, r_dtype in INPUT_CASTS:
+                    for kind in INPUT_VALUE_KINDS:
+                        sysm.casts, sysm.r_dtype, sysm.value_kind = dict(casts), r_dtype, kind
+                        ctx = Ctx(res, sysm, tuning, resample, item)
+                        ctx.family = f"inputs_{name}"
+                        direct = sysm.make_filter(tuning, resample)
+                        mirror = sysm.make_filter(tuning, resample)
+                        nt = bool(casts) or r_dtype is not None or kind != "np_float64"
+                        orc, seq = {}, []
+                        res.extra["input_type_runs"] = res.extra.get("input_type_runs", 0) + 1
+                        for op in INPUT_SEQUENCE:
+                            seq.append(op)
+                            extra = {"sequence": ".".join(seq), "family": "input_types", "inputs": name, "values": kind,
+                                     "stack_a": list(stacks["a"]), "stack_b": list(stacks["b"])}
+                            orc = _guarded_op(ctx, op, direct, direct, mirror, orc, stacks, extra, nt)
+                            if orc is None:
+                                break
+                            res.states += 1
+                        res.traces += 1
+        sysm.casts, sysm.r_dtype, sysm.value_kind = {}, None, None
+
+
 # ------------------------------------------------------------------------------------------------ weights
 def _run_weights(res, item):
     _, seed, tier = item
@@ -1186,6 +1445,8 @@ def run_item(item):
     kind = item[0]
     runner = {
         "lin": _run_lin,
+        "dtype": _run_dtype,
+        "intinputs": _run_intinputs,
         "weights": _run_weights,
         "sigma": _run_sigma,
         "noobs_nonlinear": _run_noobs_nonlinear,
